@@ -2,7 +2,7 @@
    followed (peek) by a terminator, and the two terminators the string parsers use. *)
 From TV Require Import Base.Prelude Base.Utf8 Base.Winnow Gen.Consts.
 From TV Require Import Model.Trivia Model.Strings Model.Write.
-From TV Require Import Proofs.StringsRTDefs Proofs.StringsRTBase.
+From TV Require Import Proofs.StringsRTDefs Proofs.StringsRTBase Proofs.StringsRTWrite.
 Require Import Lia ZifyBool ZifyN ZifyNat.
 
 Definition t_ok (t : parser unit) (X : bytes) : Prop :=
@@ -141,4 +141,79 @@ Qed.
 Lemma strip3_0 q r : not_head q r -> strip_prefix [q; q; q] r = None.
 Proof.
   intro H. cbn. destruct r as [|b r]; [reflexivity|]. cbn in H. rewrite H. reflexivity.
+Qed.
+
+(* ---- the situations the multi-line parsers meet ------------------------------------------------- *)
+Section Situations.
+  Variable q : byte.
+  Hypothesis Hq : (b2n q <= 127)%N.
+
+  (* three quote characters ahead: the in-body quote parser (terminator: not a quote) refuses *)
+  Lemma quotes2_other_qqq Z p d :
+    exists e i', quotes2 q (t_other q) (mkIn (q :: q :: q :: Z) p d) = Bt e i'.
+  Proof.
+    apply quotes2_none.
+    - right. exists (q :: Z). split; [reflexivity|apply t_other_bt_q].
+    - right. exists (q :: q :: Z). split; [reflexivity|apply t_other_bt_q].
+  Qed.
+
+  (* one or two quote characters and then a different byte *)
+  Lemma quotes2_other_1 b Z p d : byte_eqb q b = false ->
+    quotes2 q (t_other q) (mkIn (q :: b :: Z) p d) = Ok [q] (after [q] (b :: Z) p d).
+  Proof.
+    intro H. apply quotes2_one; [exact Hq| |apply t_other_ok; exact H].
+    left. cbn. rewrite byte_eqb_refl, H. reflexivity.
+  Qed.
+  Lemma quotes2_other_2 b Z p d : byte_eqb q b = false ->
+    quotes2 q (t_other q) (mkIn (q :: q :: b :: Z) p d) = Ok [q; q] (after [q; q] (b :: Z) p d).
+  Proof. intro H. apply quotes2_two; [exact Hq|apply t_other_ok; exact H]. Qed.
+
+  (* in front of the closing delimiter, with 0, 1 or 2 quote characters belonging to the string *)
+  Lemma quotes2_delim_0 r p d : not_head q r ->
+    exists e i', quotes2 q (t_delim q) (mkIn (q :: q :: q :: r) p d) = Bt e i'.
+  Proof.
+    intro H. apply quotes2_none.
+    - right. exists (q :: r). split; [reflexivity|apply t_delim_bt, strip3_1; exact H].
+    - right. exists (q :: q :: r). split; [reflexivity|apply t_delim_bt, strip3_2; exact H].
+  Qed.
+  Lemma quotes2_delim_1 r p d : not_head q r ->
+    quotes2 q (t_delim q) (mkIn (q :: q :: q :: q :: r) p d) = Ok [q] (after [q] (q :: q :: q :: r) p d).
+  Proof.
+    intro H. apply quotes2_one; [exact Hq| |apply t_delim_ok].
+    right. exists (q :: q :: r). split; [reflexivity|apply t_delim_bt, strip3_2; exact H].
+  Qed.
+  Lemma quotes2_delim_2 r p d :
+    quotes2 q (t_delim q) (mkIn (q :: q :: q :: q :: q :: r) p d) = Ok [q; q] (after [q; q] (q :: q :: q :: r) p d).
+  Proof. apply quotes2_two; [exact Hq|apply t_delim_ok]. Qed.
+End Situations.
+
+(* ---- strings without a run of three quote characters --------------------------------------------- *)
+Lemma no3_skip q k b r : byte_eqb b q = false -> no3 q k (b :: r) = no3 q 0 r.
+Proof. intro H. cbn [no3]. rewrite H. reflexivity. Qed.
+
+Lemma no3_cases q s : no3 q 0 s = true -> (match s with [] => True | b :: _ => byte_eqb b q = true end) ->
+  s = [] \/ s = [q] \/ s = [q; q] \/
+  (exists b s2, s = q :: b :: s2 /\ byte_eqb b q = false /\ no3 q 0 (b :: s2) = true) \/
+  (exists b s2, s = q :: q :: b :: s2 /\ byte_eqb b q = false /\ no3 q 0 (b :: s2) = true).
+Proof.
+  intros H Hh. destruct s as [|b0 s1]; [auto|]. apply byte_eqb_eq in Hh. subst b0.
+  cbn [no3] in H. rewrite byte_eqb_refl in H. apply andb_true_iff in H as [_ H].
+  destruct s1 as [|b1 s2]; [auto|]. cbn [no3] in H.
+  destruct (byte_eqb b1 q) eqn:E1.
+  - apply byte_eqb_eq in E1. subst b1. apply andb_true_iff in H as [_ H].
+    destruct s2 as [|b2 s3]; [auto|]. cbn [no3] in H.
+    destruct (byte_eqb b2 q) eqn:E2.
+    + apply andb_true_iff in H as [H _]. change (0 + 1 + 1)%N with 2%N in H. discriminate.
+    + right; right; right; right. exists b2, s3. repeat split; auto. rewrite no3_skip by exact E2. exact H.
+  - right; right; right; left. exists b1, s2. repeat split; auto. rewrite no3_skip by exact E1. exact H.
+Qed.
+
+Lemma no3_app_other q : forall c k s, forallb (fun b => negb (byte_eqb b q)) c = true -> c <> [] ->
+  no3 q k (c ++ s) = no3 q 0 s.
+Proof.
+  induction c as [|b c IH]; intros k s Hc Hne; [congruence|].
+  cbn [forallb] in Hc. apply andb_true_iff in Hc as [Hb Hc].
+  assert (E : byte_eqb b q = false) by (destruct (byte_eqb b q); [discriminate|reflexivity]).
+  cbn [app]. rewrite no3_skip by exact E. destruct c as [|b' c']; [reflexivity|].
+  apply IH; [exact Hc|discriminate].
 Qed.
